@@ -41,6 +41,7 @@ def _run0(ck, fb):
         ck.require(len(rmv) == 1, 'R12a', 'remove_instance:removal-site', rm.where(), 'instances.remove not found exactly once')
         # find the refusing return: a block assigning None to _0 guarded by ephemeral==true, is_empty==false, ne==true
         refusals = []
+        emp_on_stored = []
         for (i, j, st) in rm.aggregates(r'std::option::Option$', 'None'):
             if st['d'] != 0:
                 continue
@@ -54,11 +55,24 @@ def _run0(ck, fb):
                     has_old = any(d['k'] == 'place' and d['fields'][-1:] == ['client_id'] for d in srcs)
                     if changed and has_old:
                         ne = True
-            emp = any(a[0] == 'call' and (a[1] or '').endswith('is_empty') and a[2] is False for a in atoms)
+            emp = False
+            for a in atoms:
+                if a[0] == 'call' and (a[1] or '').endswith('is_empty') and a[2] is False:
+                    # "a deregistration without a client id (HTTP, console) may remove any ephemeral instance": the emptiness that is tested is the
+                    # REQUESTER's - the value that comes from the parameter, not a field of the stored instance
+                    d0 = cfg.strip_calls(rm, cfg.describe_operand(rm, a[3]['args'][0]))
+                    stored = d0['k'] == 'place' and d0['fields'][-1:] == ['client_id']
+                    if not stored:
+                        emp = True
+                    else:
+                        emp_on_stored.append(i)
             if e and ne and emp:
                 refusals.append(i)
-        ck.require(len(refusals) >= 1, 'R12a', 'remove_instance:refuses-foreign-ephemeral', rm.where(),
-                   'Service::remove_instance no longer refuses to remove an ephemeral instance owned by a different client id')
+        ck.require(len(refusals) >= 1, 'R12a', 'remove_instance:refuses-foreign-ephemeral', rm.where(emp_on_stored[0]) if emp_on_stored else rm.where(),
+                   'Service::remove_instance no longer refuses exactly "ephemeral, requester has a client id, and it differs from the stored one"%s'
+                   % (': the emptiness test is on the STORED instance\'s client id - an HTTP / console deregistration of a gRPC-registered instance is '
+                      'refused (the address stays listed), a foreign connection\'s deregistration of an HTTP-registered instance is carried out'
+                      if emp_on_stored else ''))
         for i in refusals:
             for s in rmv:
                 ck.require(s.bb not in cfg.reach_from(rm, [i]), 'R12a', 'remove_instance:refusal-returns', rm.where(i), 'the refusal path still reaches instances.remove')
